@@ -1,4 +1,5 @@
 import Driver.VMapDrv
+import Driver.TextTableDrv
 /-! `psymodel <component>`: reads one case per line on stdin, answers one line per case. -/
 
 partial def loop (h : IO.FS.Stream) (out : IO.FS.Stream) (f : String → String) : IO Unit := do
@@ -12,4 +13,5 @@ def main (args : List String) : IO UInt32 := do
   let stdout ← IO.getStdout
   match args with
   | ["vmap"] => loop stdin stdout Driver.VMapDrv.handle; return 0
+  | ["textable"] => loop stdin stdout Driver.TextTableDrv.handle; return 0
   | _ => IO.eprintln "usage: psymodel <component>"; return 2
